@@ -18,8 +18,11 @@ func (q queryServer) CalculationSwapExactAmountIn(goCtx context.Context, req *ty
 	ctx := sdk.UnwrapSDKContext(goCtx)
 
 	amountIn, ok := sdkmath.NewIntFromString(req.AmountIn)
-	if !ok {
+	if !ok || !amountIn.IsPositive() {
 		return nil, types.ErrInvalidAmount
+	}
+	if err := req.Route.Validate(); err != nil {
+		return nil, err
 	}
 	result, interfaceProviderFee, err := q.k.CalculateResultExactAmountIn(ctx, req.HasInterfaceFee, *req.Route, amountIn)
 	if err != nil {
@@ -40,8 +43,11 @@ func (q queryServer) CalculationSwapExactAmountOut(goCtx context.Context, req *t
 	ctx := sdk.UnwrapSDKContext(goCtx)
 
 	amountOut, ok := sdkmath.NewIntFromString(req.AmountOut)
-	if !ok {
+	if !ok || !amountOut.IsPositive() {
 		return nil, types.ErrInvalidAmount
+	}
+	if err := req.Route.Validate(); err != nil {
+		return nil, err
 	}
 	result, interfaceProviderFee, err := q.k.CalculateResultExactAmountOut(ctx, req.HasInterfaceFee, *req.Route, amountOut)
 	if err != nil {
